@@ -35,7 +35,7 @@ RULE = ("E3 crash runs on the real director: a project (8 hand-written families:
         "after the uninterrupted startup sequence, every command the uninterrupted build executed is executed by "
         "the restart, and the model of the startup sequence (with the GENERATED block structure of rescan_env_vars) "
         "run on the crashed tables and the observed world ends in the tables of the real successor. "
-        "quick: the three witnesses (D6, D6b, D13) + 10 seeded points on each of 5 projects + 7 startup cases (one "
+        "quick: the three witnesses (D6, D6b, D13) + 8 seeded points on each of 5 projects + 7 startup cases (one "
         "per class of evidence) at all their startup points + 2 directed cleanup cases (every end-of-build "
         "transaction before/after and every removal of remove_deletable_files) + 1 watch case (a WATCHING director "
         "killed in the transactions of its watcher, of start_build_phase and of the rebuild); thorough: every point "
@@ -193,9 +193,10 @@ def _jobs(ctx):
         # commit point from the end of its first build phase on
         for n in cc.WATCH_FAMILIES:
             jobs.append({"case": cc.make_case(n, ctx.seed * 4 + 1), "watch": True, "seed": ctx.seed})
+        jobs.append({"case": cc.make_case("detachrun", ctx.seed)})
     else:
         picks = [(n, rng.randrange(1000)) for n in rng.sample(names, 4)] + [("gen", rng.randrange(1000))]
-        jobs += [{"case": cc.make_case(n, s), "sample": 10, "seed": ctx.seed} for n, s in picks]
+        jobs += [{"case": cc.make_case(n, s), "sample": 8, "seed": ctx.seed} for n, s in picks]
         # startup families: one case of every class of evidence the startup sequence compares with
         # the outside world (tracked environment variable, file hash, glob matches, interrupted
         # step) and one combination, killed at EVERY commit of the startup sequence
@@ -213,10 +214,12 @@ def _jobs(ctx):
         # project that reverts optional steps and one that drops steps (incremental builds)
         for n in ("optional", rng.choice(["drop", "subplan"])):
             jobs.append({"case": cc.make_case(n, 4 * rng.randrange(250) + rng.randrange(3)), "points": "cleanup"})
+        # directed: a step RUNNING and detached at the kill (its creator is being re-executed)
+        jobs.append({"case": cc.make_case("detachrun", rng.randrange(1000)), "points": "detached"})
         # directed: a watching director killed in the transactions of its watcher, of
         # start_build_phase and of the rebuild
         jobs.append({"case": cc.make_case(rng.choice(cc.WATCH_FAMILIES), 4 * rng.randrange(250) + rng.randrange(3)),
-                     "watch": True, "sample": 8, "seed": ctx.seed})
+                     "watch": True, "sample": 6, "seed": ctx.seed})
     return jobs
 
 
@@ -372,6 +375,7 @@ def _deep(ctx):
               "startup_both": True} for kind in cc.STARTUP_KINDS]
     jobs += [{"case": cc.make_case(n, 4 * rng.randrange(250)), "points": "cleanup"} for n in ("optional", "drop", "subplan")]
     jobs += [{"case": cc.make_case(n, 4 * rng.randrange(250)), "watch": True} for n in ("optional", "amend", "chain")]
+    jobs.append({"case": cc.make_case("detachrun", rng.randrange(10000))})
     return e3.pool_map(cc.run_job, jobs, nproc=6)
 
 
